@@ -1280,3 +1280,134 @@ Section Delivery6.
     change (msg_events (k_tr (advance c4 dt0))) with (msg_events (k_tr c3)). rewrite P9. apply app_nil_r.
   Qed.
 End Delivery6.
+
+(* ---------- while there is no socket, nothing the application sends consumes a scheduled write outcome ---------- *)
+Lemma write_nosock c d cl : k_sock c = false -> write c d cl = (c, Some XUnavailable).
+Proof. intros H. unfold write. rewrite H. reflexivity. Qed.
+
+Lemma send_frame_nosock c op r p : k_sock c = false -> k_wfaults (fst (send_frame c op r p)) = k_wfaults c.
+Proof.
+  intros H. unfold send_frame, pop_key. destruct (k_keys c) as [|k ks]; rewrite write_nosock by exact H; reflexivity.
+Qed.
+
+Lemma send_data_nosock c op p z : k_sock c = false -> k_wfaults (fst (send_data c op p z)) = k_wfaults c.
+Proof.
+  intros H. unfold send_data. destruct (k_deflate c) as [d|]; [|apply send_frame_nosock; exact H].
+  destruct z; [|apply send_frame_nosock; exact H].
+  destruct (k_ctape c) as [|z0 zs]; cbv zeta; destruct (c_reset d); rewrite send_frame_nosock by exact H; reflexivity.
+Qed.
+
+Lemma api_send_nosock c a : send_action (ACall a) -> k_sock c = false -> k_wfaults (fst (api_call c a)) = k_wfaults c.
+Proof.
+  intros Ha H. destruct a; cbn [api_call send_action] in *; try contradiction;
+    try (apply send_data_nosock; exact H);
+    (destruct (125 <? blen payload); [reflexivity|apply send_frame_nosock; exact H]).
+Qed.
+
+Lemma do_actions_nosock acts : Forall send_action acts -> forall c, k_sock c = false ->
+  k_wfaults (fst (do_actions c acts)) = k_wfaults c.
+Proof.
+  induction 1 as [|a acts Ha _ IH]; intros c Hs; [reflexivity|].
+  destruct a as [cl|w]; [|contradiction]. cbn [do_actions].
+  destruct (api_send_core c cl Ha) as [(_&_&_&_&_&_&_&A8) _]. pose proof (api_send_nosock c cl Ha Hs) as B.
+  destruct (api_call c cl) as [c1 r]. cbn [fst] in *.
+  rewrite IH by (cbn; congruence). exact B.
+Qed.
+
+Section Delivery7.
+  Variable cf : cfg.
+  Variable app : strategy.
+  Hypothesis app_benign : benign app.
+  Hypothesis no_ping_timeout : zpos (c_ping_timeout cf) = None.
+
+  Lemma deliver_nosock c e : k_sock c = false -> k_wfaults (fst (deliver app c e)) = k_wfaults c.
+  Proof. intros H. unfold deliver. rewrite do_actions_nosock; [reflexivity|apply app_benign|exact H]. Qed.
+
+  (* the accepted upgrade reply takes a fresh connection to the state between two frames -- whatever the application
+     sends at the Ready event *)
+  Lemma handshake_idle_benign c reply proto :
+    k_ps c = fp_init -> k_closed c = false -> k_closing c = false -> k_deflate c = None -> k_sent_close_time c = None ->
+    k_frames c = [] -> reply_block reply ->
+    on_response (c_accept cf) (parse_response reply) = HReady proto None ->
+    exists c', feedf cf app c reply = (c', SOk) /\ idle c' [] /\ msg_events (k_tr c') = msg_events (k_tr c) /\
+               k_sock c' = k_sock c.
+  Proof.
+    intros Hps Hcl Hcg Hdf Hsc Hfr Hrb Hresp.
+    destruct (pull_reply reply Hrb) as (s' & Hpull & Hab).
+    rewrite feedf_unfold by (rewrite Hps; exact fp_init_ok). unfold feed_body. rewrite Hcl, Hps, Hpull.
+    unfold on_item. rewrite Hresp. unfold feed_yield, in_feed_yield. cbn [on_event].
+    match goal with |- context [deliver app ?x ?e] => set (cr := x); destruct (deliver_benign app app_benign cr e) as (c1 & E1 & C1 & M1) end.
+    rewrite E1. cbv beta iota.
+    destruct C1 as (A1&A2&A3&A4&A5&A6&A7&A8).
+    assert (Hs1 : k_sent_close_time c1 = None) by (rewrite A6; exact Hsc).
+    destruct (regular_quiet cf app app_benign no_ping_timeout c1 Hs1) as (R1 & (S1&S2&S3&S4&S5&S6&S7&S8) & R3).
+    destruct (regular cf app c1) as [c2 st2]. cbn [fst snd] in *. subst st2. cbv beta iota.
+    assert (F6 : k_ps c2 = s') by (rewrite S1, A1; reflexivity).
+    assert (Hokc2 : fp_ok (k_ps c2)) by (rewrite F6, Hab; unfold fp_ok, st_ok; cbn; lia).
+    assert (F1 : k_closed c2 = false) by (rewrite S4, A4; exact Hcl).
+    assert (F2 : k_closing c2 = false) by (rewrite S3, A3; exact Hcg).
+    assert (F3 : k_deflate c2 = None) by (rewrite S5, A5; exact Hdf).
+    assert (F4 : k_sent_close_time c2 = None) by (rewrite S6, A6; exact Hsc).
+    assert (F5 : k_frames c2 = []) by (rewrite S2, A2; exact Hfr).
+    exists c2. split.
+    { rewrite feedf_unfold by exact Hokc2. unfold feed_body. rewrite F1.
+      change (fp_pull (k_ps c2) []) with (NeedMore (item:=pitem) (err:=perr) (k_ps c2)). cbv beta iota.
+      rewrite set_ps_same. reflexivity. }
+    split.
+    { unfold idle. rewrite F1, F2, F3, F4, F5, F6. repeat split; auto. exists UAcc. split; [exact Hab|reflexivity]. }
+    split; [rewrite R3, M1; reflexivity|rewrite S8, A8; reflexivity].
+  Qed.
+
+  (* C01 for the whole run and ANY application that only sends (at Connecting, Connected, Ready, at every message, at every
+     Poll): connect, the accepted reply in one read, then the conforming stream in any pieces with any waiting in between:
+     the message events of the run are exactly the messages of the reference reading, in order *)
+  Theorem run_delivers_benign keys wf zt ct dt0 reply proto steps fs lfs ms open' :
+    (match wf with [] => True | w :: _ => w = WOk end) ->
+    reply_block reply -> on_response (c_accept cf) (parse_response reply) = HReady proto None ->
+    Forall quiet_step steps -> Forall plain fs -> forms_ok fs lfs ->
+    ref_messages [] fs = Some (ms, open') -> encode_all fs lfs = concat (reads_of steps) ->
+    msg_events (k_tr (run cf app (init keys wf zt ct) CnOk (StRead dt0 (RData reply) :: steps))) = rev (map ev_of ms).
+  Proof.
+    intros Hwf Hrb Hresp Hq Hpl Hforms Href Henc.
+    assert (W : forall c, msg_events (k_tr (if k_with c then close_socket c else c)) = msg_events (k_tr c)).
+    { intros c. destruct (k_with c); [|reflexivity]. destruct (ext_close_socket c) as (l & E & F). rewrite E. apply msg_events_not_event. exact F. }
+    unfold run. rewrite W. unfold run_gen.
+    set (c0 := init keys wf zt ct).
+    destruct (deliver_benign app app_benign c0 EvConnecting) as (c1 & E1 & (A1&A2&A3&A4&A5&A6&A7&A8) & M1).
+    pose proof (deliver_nosock c0 EvConnecting eq_refl) as Wf1. rewrite E1 in Wf1. cbn [fst] in Wf1. rewrite E1.
+    set (c2 := c1 <| k_sock := true |>).
+    assert (E3 : exists c3, (let '(w, c') := pop_wfault c2 in
+                  match w with WOk => (emit (TWriteReq true) c', @None exn) | _ => (emit (TWriteReq false) c', Some XTransportFail) end) = (c3, None)
+                 /\ k_ps c3 = fp_init /\ k_closed c3 = false /\ k_closing c3 = false /\ k_deflate c3 = None /\
+                    k_sent_close_time c3 = None /\ k_frames c3 = [] /\ k_sock c3 = true /\ k_ready c3 = false /\ msg_events (k_tr c3) = []).
+    { unfold pop_wfault. change (k_wfaults c2) with (k_wfaults c1). rewrite Wf1. change (k_wfaults c0) with wf.
+      destruct wf as [|w ws]; [|subst w]; (eexists; split; [reflexivity|]);
+        (split; [exact A1|]); (split; [exact A4|]); (split; [exact A3|]); (split; [exact A5|]); (split; [exact A6|]);
+        (split; [exact A2|]); (split; [reflexivity|]); (split; [exact A7|exact M1]). }
+    destruct E3 as (c3 & E3 & P1 & P2 & P3 & P4 & P5 & P6 & P7 & P8 & P9).
+    cbv zeta. fold c2.
+    change (negb (k_sock c2)) with false. change (k_closed c2) with (k_closed c1). change (k_closing c2) with (k_closing c1).
+    rewrite A4, A3. change (k_closed c0) with false. change (k_closing c0) with false. cbv beta iota.
+    rewrite E3.
+    destruct (deliver_benign app app_benign c3 EvConnected) as (c4 & E4 & (B1&B2&B3&B4&B5&B6&B7&B8) & M4). rewrite E4.
+    cbn [loop]. rewrite B4, P2.
+    assert (Er : regular cf app (advance c4 dt0) = (advance c4 dt0, SOk)).
+    { unfold regular. change (k_ready (advance c4 dt0)) with (k_ready c4). rewrite B7, P8. reflexivity. }
+    rewrite Er. change (k_sock (advance c4 dt0)) with (k_sock c4). rewrite B8, P7.
+    destruct Hrb as (i & Hf & Hi & Hl). assert (Hrb : reply_block reply) by (exists i; auto).
+    destruct reply as [|r0 reply']; [cbn in Hf; discriminate|].
+    assert (Q1 : k_ps (advance c4 dt0) = fp_init) by (change (k_ps c4 = fp_init); congruence).
+    assert (Q2 : k_closed (advance c4 dt0) = false) by (change (k_closed c4 = false); congruence).
+    assert (Q3 : k_closing (advance c4 dt0) = false) by (change (k_closing c4 = false); congruence).
+    assert (Q4 : k_deflate (advance c4 dt0) = None) by (change (k_deflate c4 = None); congruence).
+    assert (Q5 : k_sent_close_time (advance c4 dt0) = None) by (change (k_sent_close_time c4 = None); congruence).
+    assert (Q6 : k_frames (advance c4 dt0) = []) by (change (k_frames c4 = []); congruence).
+    destruct (handshake_idle_benign (advance c4 dt0) (r0 :: reply') proto Q1 Q2 Q3 Q4 Q5 Q6 Hrb Hresp) as (c5 & E5 & Hidle & M5 & S5).
+    rewrite E5.
+    destruct (loop_delivers_all cf app app_benign no_ping_timeout steps c5 [] fs lfs ms open' Hq Hidle I
+                ltac:(rewrite S5; change (k_sock (advance c4 dt0)) with (k_sock c4); congruence) Hpl Hforms Href Henc)
+      as (c' & El & _ & Hmsg).
+    rewrite El. change (k_tr (emit TBlocked c')) with (TBlocked :: k_tr c'). cbn [msg_events]. rewrite Hmsg, M5.
+    change (msg_events (k_tr (advance c4 dt0))) with (msg_events (k_tr c4)). rewrite M4, P9. apply app_nil_r.
+  Qed.
+End Delivery7.
